@@ -58,6 +58,22 @@ macro_rules! quat_checks {
                 acc.fail(&format!("{tn}::eq"), format!("a={:?} b={:?}", a, b));
             }
         });
+        // scalar * and / act component-wise like the 4-vector operations: each lane is the single
+        // correctly rounded primitive product / quotient
+        $rep.sweep(&format!("{tn}/scalar mul,div lane-wise/{{-2..2}}^4 x 9 scalars"), 625 * 9, |idx, acc| {
+            let a = int_quat(idx % 625, 2);
+            let sc = [3.0 as $S, 7.0, 0.1, -1.3, 1e-3, 49.0, 0.75, -6.0, 1.0 / 3.0][(idx / 625) as usize];
+            let q = mk(&a) * (1.1 as $S);
+            let l = q.to_array();
+            let nz = a.iter().any(|x| *x != 0);
+            let gm = (q * sc).to_array();
+            let gd = (q / sc).to_array();
+            acc.eval(nz, (gd[0] as f64).to_bits() ^ (gm[3] as f64).to_bits().rotate_left(9));
+            for i in 0..4 {
+                if gm[i] != l[i] * sc { acc.fail(&format!("{tn}::mul_scalar"), format!("q={:?} s={:?} lane {i}: got={:?} want={:?}", l, sc, gm[i], l[i] * sc)); }
+                if gd[i] != l[i] / sc { acc.fail(&format!("{tn}::div_scalar"), format!("q={:?} s={:?} lane {i}: got={:?} want={:?}", l, sc, gd[i], l[i] / sc)); }
+            }
+        });
         // q * v for q in {-2..2}^4, v in {-1,0,1}^3: exact vector part of q (v,0) conj(q)
         $rep.sweep(&format!("{tn}/exact-int/q*v, q in {{-2..2}}^4, v in {{-1,0,1}}^3"), 625 * 27, |idx, acc| {
             let q = int_quat(idx % 625, 2);
@@ -129,6 +145,23 @@ macro_rules! quat_checks {
             let want = qmul(&fq, &fp);
             let s: f64 = (0..4).map(|i| fq[i].abs()).sum::<f64>() * (0..4).map(|i| fp[i].abs()).fold(0.0, f64::max);
             env_vec(acc, &format!("{tn}::mul(unit)"), &qp, &want, &[8.0 * eps * s], &ctx);
+        });
+        // is_near_identity: true when the rotation angle 2*acos|w| is below the documented threshold
+        // (0.00284714461 rad); decided outside a factor-2 slack zone around the threshold
+        $rep.sweep(&format!("{tn}/is_near_identity/angles around the threshold x axes"), 40 * 7, |idx, acc| {
+            let k = (idx % 40) as i32;
+            let ax = [[1.0, 0.0, 0.0], [0.0, 1.0, 0.0], [0.0, 0.0, 1.0], [0.6, 0.0, 0.8], [0.26726124, 0.5345225, 0.80178374], [-0.6, 0.8, 0.0], [0.0, -0.6, -0.8]][(idx / 40) as usize];
+            let thr = 0.002_847_144_6f64;
+            let ang = thr * 2f64.powf((k - 20) as f64 * 0.5); // thr * 2^-10 .. thr * 2^9.5
+            for sign in [1.0f64, -1.0] {
+                let h = ang * 0.5;
+                let q = <$Q>::from_xyzw((ax[0] * h.sin() * sign) as $S, (ax[1] * h.sin() * sign) as $S, (ax[2] * h.sin() * sign) as $S, (h.cos() * sign) as $S);
+                let got = q.is_near_identity();
+                acc.eval(true, got as u64 | (k as u64) << 1);
+                if (ang < thr * 0.5 && !got) || (ang > thr * 2.0 && got) {
+                    acc.fail(&format!("{tn}::is_near_identity"), format!("q={:?} rotation angle {:e} (threshold {:e}) -> {}", q, ang, thr, got));
+                }
+            }
         });
         // length / normalize act like the 4-vector operations
         let grid: Vec<[f64; 4]> = rot.iter().step_by(3).map(|q| [q[0] * 3.5, q[1] * 3.5, q[2] * 3.5, q[3] * 3.5]).chain(rot.iter().step_by(7).map(|q| [q[0] * 1e-6, q[1] * 1e-6, q[2] * 1e-6, q[3] * 1e-6])).collect();
